@@ -141,7 +141,7 @@ def votes_and_terms(case, out, allow_kill=False):
                 return (cls, 'node %d: term %d -> %d at step %d (label %s)' % (i + 1, prev_term[i], nd[1], step, lab))
             prev_term[i] = nd[1]
         new = []
-        if lab[0] == 0 and res:
+        if lab[0] in (0, 13) and res:
             req_term, seen = res
             new.append((lab[1], req_term, lab[1]))          # the candidate votes for itself in its new term
             for tgt, r in seen:
@@ -352,11 +352,13 @@ def check_cluster_property(run, props_file, cone, oracles, kills=False, quick=(1
         broken.append(('harness', b.what, b.detail))
     return flow.conclude(run, broken, violations)
 
+def _is_election(lab): return lab[0] in (0, 13)
+
 def history_of(case, out):
     """(U, G, Ls): voters, grants (voter, term, candidate) and leaders (node, term) of a real execution."""
     n = case[0]; G = []; Ls = []
     for (obs, res), lab in zip(out, case[2]):
-        if lab[0] == 0 and res:
+        if lab[0] in (0, 13) and res:
             req_term, seen = res
             G.append([lab[1], req_term, lab[1]])
             for tgt, r in seen:
@@ -393,3 +395,43 @@ def replay_cluster(path, oracles):
     for f in oracles:
         bad = bad or f(r['input'], out)
     print('VIOLATES: %s' % (bad,) if bad else 'ok'); return 1 if bad else 0
+
+# ---------------------------------------------------------------- C32: recovery once faults stop
+def replication_rounds(n, rounds):
+    P = list(range(1, n + 1)); s = []
+    for _ in range(rounds):
+        for a in P:
+            s += [[6, a], [9, a]]
+            for b in P:
+                if b != a: s += [[1, a, b, 2], [9, b], [3, a, b, 2]]
+            s += [[9, a]]
+    return s
+
+def healing_suffix(n, sweeps, rounds):
+    """Faults stop: `sweeps` times, every node that does not follow a live leader gets an election timeout whose
+    vote requests reach everybody, followed by one replication round; then `rounds` rounds in which whoever
+    leads ticks and every request and every acknowledgement is delivered."""
+    P = list(range(1, n + 1)); s = []
+    for _ in range(sweeps):
+        for a in P:
+            s += [[13, a, [p for p in P if p != a]], [9, a]]
+            s += replication_rounds(n, 1)
+    return s + replication_rounds(n, rounds)
+
+def recovered(case, out):
+    """C32 on a fair suffix: one leader of the highest term, a new write is accepted and committed, every node holds
+    the leader's log and has marked all of it committed."""
+    obs = out[-1][0]
+    top = max(nd[1] for nd in obs)
+    leaders = [i + 1 for i, nd in enumerate(obs) if nd[0] == LEADER and nd[1] == top]
+    if len(leaders) != 1:
+        return ('no-leader-after-healing', 'after the healing suffix the nodes are %s' % [[nd[0], nd[1]] for nd in obs])
+    l = obs[leaders[0] - 1]
+    if not l[4] or l[2] != l[4][-1][0]:
+        return ('leader-did-not-commit-its-log', 'leader %d: commit %d, last index %s' % (leaders[0], l[2], l[4][-1][0] if l[4] else 0))
+    for i, nd in enumerate(obs):
+        if nd[4] != l[4]:
+            return ('follower-did-not-catch-up', 'node %d log %s vs leader log %s' % (i + 1, [e[:2] for e in nd[4]], [e[:2] for e in l[4]]))
+        if nd[2] != l[2]:
+            return ('follower-commit-lags', 'node %d commit %d vs leader commit %d' % (i + 1, nd[2], l[2]))
+    return None
